@@ -4,7 +4,7 @@
 From Coq Require Import List NArith ZArith Bool Lia ZifyBool Arith Permutation.
 From RPFT Require Import Base.Sexp Base.PyStr Base.PyStrFacts Base.Result Base.ODict Gen.Tables
   Cell.Cell Cell.CellFacts Row.Ty Row.Layout Row.RowParse Row.RowUnparse Row.TextFacts Row.RoundTrip
-  Row.RoundTripFacts.
+  Row.RoundTripFacts Row.CtxRoundTripFacts Row.RoundTripExamples.
 Import ListNotations.
 Local Open Scope N_scope.
 
@@ -767,3 +767,132 @@ Section Ordered.
       apply validate_model_read; [apply (dom_fields_names tgt h2f f2h comps), Hd|exact Hread].
   Qed.
 End Ordered.
+
+(* ---- the row ---------------------------------------------------------------------------------------------- *)
+(* the columns of a sheet row as paths: the header split at "." *)
+Definition cols_of_cells (cells : list (str * str)) : cols :=
+  map (fun kv => (split_char c_dot (fst kv), snd kv)) cells.
+
+Lemma cells_of_cols_of_cells cells : cells_of (cols_of_cells cells) = cells.
+Proof.
+  unfold cells_of, cols_of_cells. rewrite map_map. cbn [fst snd].
+  rewrite <- (map_id cells) at 2. apply map_ext. intros [k s]. cbn [fst snd]. unfold header_of.
+  rewrite join_split_char. reflexivity.
+Qed.
+
+Lemma cols_of_cells_of cs : paths_nonempty cs -> names_ok cs -> cols_of_cells (cells_of cs) = cs.
+Proof.
+  intros Hp Hn. unfold cells_of, cols_of_cells. rewrite map_map. cbn [fst snd].
+  rewrite <- (map_id cs) at 2. apply map_ext_in. intros [p s] Hin. cbn [fst snd]. f_equal.
+  unfold paths_nonempty, names_ok in *. rewrite Forall_forall in Hp, Hn. specialize (Hp _ Hin). specialize (Hn _ Hin).
+  cbn [fst] in Hp, Hn. unfold header_of. apply split_join_char; [exact Hp|].
+  rewrite Forall_forall in *. intros c Hc. specialize (Hn c Hc). apply name_ok_inv in Hn. tauto.
+Qed.
+
+Lemma ord_fields_nil f2h fds : ord_fields f2h [] fds = true.
+Proof. induction fds as [|[n [tf d]] r IH]; [reflexivity|]. cbn [ord_fields proj]. rewrite IH. destruct tf; reflexivity. Qed.
+
+(* C07-3 *)
+Theorem header_order_irrelevant root v targets cells cells' :
+  row_dom root v targets = true ->
+  unparse_row root v targets [] = Ok cells ->
+  Permutation cells cells' ->
+  cols_ordered root (cols_of_cells cells') = true ->
+  parse_row {| rm_ty := root; rm_ctx := None |} cells' = Ok v.
+Proof.
+  intros Hd Hu Hperm Hord.
+  assert (Hshape : exists fields h2f f2h fs, root = TModel fields h2f f2h /\ v = VModel fs).
+  { unfold row_dom in Hd. apply andb_true_iff in Hd as [Hm Hd]. destruct root as [| | | | | |fields h2f f2h]; try discriminate.
+    rewrite dom_unfold in Hd. cbn [is_basic_ty] in Hd. replace (matches_headers targets []) with false in Hd by reflexivity.
+    destruct v as [| | | | |fs]; try discriminate. exists fields, h2f, f2h, fs. split; reflexivity. }
+  destruct Hshape as (fields & h2f & f2h & fs & -> & ->).
+  destruct (root_written fields h2f f2h fs targets cells Hd Hu) as (gs & -> & Hgs & Hdf & Hnames & Hnd & _ & F2 & F3).
+  set (tgt := matches_headers targets) in *. set (cs := concat gs) in *. set (cs' := cols_of_cells cells') in *.
+  assert (Hpcs : Permutation cs cs').
+  { rewrite <- (cols_of_cells_of cs F2 F3). unfold cs', cols_of_cells. apply Permutation_map, Hperm. }
+  pose proof (paths_nonempty_perm _ _ Hpcs F2) as F2'. pose proof (names_ok_perm _ _ Hpcs F3) as F3'.
+  assert (Hcells' : cells' = cells_of cs') by (symmetry; apply cells_of_cols_of_cells).
+  assert (Hnd' : NoDup (map fst cells')) by (apply (Permutation_NoDup (Permutation_map fst Hperm) Hnd)).
+  pose proof (nodup_str_NoDup _ Hnames) as Hnames'.
+  assert (Hordf : ord_fields f2h cs' fields = true).
+  { destruct cs' as [|c0 cr] eqn:Ecs; [apply ord_fields_nil|].
+    rewrite cols_ordered_unfold, (is_leaf_cols_false (c0 :: cr) ltac:(discriminate) F2') in Hord. exact Hord. }
+  destruct (model_read tgt fields h2f f2h [] fs gs cs'
+              (proj2 (Forall_forall _ _) (fun f _ => ordered_ok tgt (f_ty f))) Hnames' Hdf Hgs Hpcs Hordf) as (d & Hfill & Hread).
+  unfold parse_row. cbn [rm_ctx rm_ty]. rewrite (rekey_none _ Hnd'). cbn [bind].
+  rewrite expand_no_star.
+  - rewrite Hcells', (parse_cols_fill _ _ _ F2' F3'), Hfill. cbn [bind].
+    apply validate_model_read; [apply (dom_fields_names tgt h2f f2h []), Hdf|].
+    intros n tf dflt v' Hin. apply field_read_filter, Hread, Hin.
+  - rewrite Hcells'. unfold cells_of. apply Forall_forall. intros kv Hin. apply in_map_iff in Hin as [ps [<- Hps]]. cbn [fst].
+    apply header_no_star. unfold names_ok in F3'. rewrite Forall_forall in F3'. apply F3', Hps.
+Qed.
+
+(* ---- a decision procedure for Permutation on concrete cell lists (for the Examples) ------------------ *)
+Section IsPerm.
+  Context {X : Type}.
+  Variable eqb : X -> X -> bool.
+  Hypothesis eqb_eq : forall a b, eqb a b = true -> a = b.
+
+  Fixpoint remove_first (x : X) (l : list X) : option (list X) :=
+    match l with
+    | [] => None
+    | y :: r => if eqb x y then Some r
+                else match remove_first x r with Some r' => Some (y :: r') | None => None end
+    end.
+
+  Fixpoint is_perm (l l' : list X) : bool :=
+    match l with
+    | [] => is_nil l'
+    | x :: r => match remove_first x l' with Some l'' => is_perm r l'' | None => false end
+    end.
+
+  Lemma remove_first_perm x l l' : remove_first x l = Some l' -> Permutation l (x :: l').
+  Proof.
+    revert l'. induction l as [|y r IH]; intros l' H; cbn [remove_first] in H; [discriminate|].
+    destruct (eqb x y) eqn:E.
+    - apply eqb_eq in E. subst y. injection H as <-. reflexivity.
+    - destruct (remove_first x r) as [r'|]; [|discriminate]. injection H as <-.
+      eapply perm_trans; [apply perm_skip, (IH r' eq_refl)|apply perm_swap].
+  Qed.
+
+  Lemma is_perm_sound l : forall l', is_perm l l' = true -> Permutation l l'.
+  Proof.
+    induction l as [|x r IH]; intros l' H; cbn [is_perm] in H.
+    - destruct l'; [constructor|discriminate].
+    - destruct (remove_first x l') as [l''|] eqn:E; [|discriminate].
+      eapply perm_trans; [apply perm_skip, (IH l'' H)|apply Permutation_sym, (remove_first_perm _ _ _ E)].
+  Qed.
+End IsPerm.
+
+Definition cell_eqb (a b : str * str) : bool := str_eqb (fst a) (fst b) && str_eqb (snd a) (snd b).
+Lemma cell_eqb_eq a b : cell_eqb a b = true -> a = b.
+Proof.
+  destruct a, b. unfold cell_eqb. cbn [fst snd]. intros H. apply andb_true_iff in H as [H1 H2].
+  apply str_eqb_eq in H1. apply str_eqb_eq in H2. subst. reflexivity.
+Qed.
+
+(* the example row of Row/RoundTripExamples.v with its columns shuffled (d.1 before d.2, u.1 before u.2) *)
+Definition ex_cells_shuffled : list (str * str) :=
+  [([104; 100; 114], [107; 59; 118; 124; 122; 59]); ([99; 46; 121], [45; 53]); ([100; 46; 49], [120; 59; 113; 124]); ([117; 46; 49], [120; 32; 121]); ([97], [104; 124; 105; 59; 92]);
+   ([100; 46; 50], [121; 59; 55; 124]); ([103], [70; 97; 108; 115; 101]); ([99; 46; 120], [113]); ([117; 46; 50], 97 :: 10 :: [98]); ([101], [45; 50; 46; 50; 53]);
+   ([98], [49; 124; 92; 59; 32; 50; 124] ++ 233 :: [97])].
+
+Lemma ex_shuffled_hyps :
+  Permutation ex_cells ex_cells_shuffled /\ cols_ordered ex_ty (cols_of_cells ex_cells_shuffled) = true.
+Proof.
+  split; [apply (is_perm_sound cell_eqb cell_eqb_eq); vm_compute; reflexivity|vm_compute; reflexivity].
+Qed.
+
+(* without the ordering condition the statement is false: u.2 before u.1 *)
+Definition ex_cells_bad_order : list (str * str) :=
+  [([97], [104; 124; 105; 59; 92]); ([98], [49; 124; 92; 59; 32; 50; 124] ++ 233 :: [97]); ([99; 46; 120], [113]); ([99; 46; 121], [45; 53]); ([100; 46; 49], [120; 59; 113; 124]); ([100; 46; 50], [121; 59; 55; 124]);
+   ([101], [45; 50; 46; 50; 53]); ([103], [70; 97; 108; 115; 101]); ([117; 46; 50], 97 :: 10 :: [98]); ([117; 46; 49], [120; 32; 121]); ([104; 100; 114], [107; 59; 118; 124; 122; 59])].
+
+Lemma header_order_unrestricted_refuted :
+  Permutation ex_cells ex_cells_bad_order
+  /\ cols_ordered ex_ty (cols_of_cells ex_cells_bad_order) = false
+  /\ parse_row {| rm_ty := ex_ty; rm_ctx := None |} ex_cells_bad_order = Err EAssert.
+Proof.
+  split; [apply (is_perm_sound cell_eqb cell_eqb_eq); vm_compute; reflexivity|split; vm_compute; reflexivity].
+Qed.
